@@ -16,9 +16,9 @@ CONSTANTS
   FApis = {FALSE, TRUE}
   Forks = TRUE
   MultiMut = TRUE
-  NPer = 40
-  NAny = 12
-  NHonest = 120
+  NPer = 70
+  NAny = 25
+  NHonest = 250
 SPECIFICATION Spec
 INVARIANT Inv_Sound
 INVARIANT Inv_Mutants
